@@ -295,6 +295,44 @@ def run(prog, tier, repo):
                         start = 0 if c == ENTRY else c
                         if bi != start and bi in an.cfg.reachable(start, removed_nodes=[x for x in real if x != start]) and bi not in real:
                             bad.append((fname, 'ends after the node\'s location can'))
+                # siblings: a child node built in this function must not enclose another child of the same parent
+                for k, f in enumerate(fields):
+                    if ops[k] is loc_op or ops[k][0] not in ('c', 'm') or ops[k][1].proj:
+                        continue
+                    sdk = single_def(b, ops[k][1].local)
+                    if not (sdk and sdk[1] != 'term' and sdk[2][0] == 'agg' and sdk[2][1][0] == 'adt'):
+                        continue
+                    cadt = prog.adts.get(sdk[2][1][1])
+                    if cadt is None or not cadt.name.startswith('samlang_ast::source') or cadt.name.endswith('ExpressionCommon'):
+                        continue
+                    cfields = cadt.variants[sdk[2][1][2]].fields
+                    cloc = None
+                    for kk, cf in enumerate(cfields):
+                        if _is_loc(cf.ty) and cf.name in ('loc', 'location') and kk < len(sdk[2][2]):
+                            cloc = sdk[2][2][kk]
+                    if cloc is None:
+                        continue
+                    s1 = an.birth_op(cloc)
+                    if not s1:
+                        continue
+                    real1 = [x for x in s1 if x != ENTRY]
+                    bj = sdk[0] if isinstance(sdk[0], int) else bi
+                    for fname2, births2 in children:
+                        if fname2 == f.name or len(births2) != 1:
+                            continue      # only siblings produced at one definite point (a single parse call)
+                        for c in births2:
+                            if c == ENTRY:
+                                continue
+                            before = ENTRY in s1 or an.cfg.nodes_dominate(real1, c)
+                            inside = c in s1
+                            after = any(x != c and x in an.cfg.reachable(c, removed_edges=an.cfg.back_edges()) for x in real1)
+                            if inside or (before and after and c not in real1):
+                                ks = f'siblings:{b.name}:{sname}.{f.name}/{fname2}'
+                                if not any(i.key == ks for i in res.instances):
+                                    res.violation(ks, b.loc(st[3]), f'{b.name}: the `{f.name}` part of the {sname} node gets a location '
+                                                  f'that takes in its sibling `{fname2}` (one of its sources is obtained at or after the '
+                                                  f'point where `{fname2}` is parsed): sibling constructs overlap, so a position inside '
+                                                  f'`{fname2}` is also inside `{f.name}` and position-based search picks the wrong part')
                 if bad:
                     fn, why = bad[0]
                     res.violation(key, b.loc(st[3]), f'{b.name}: the location of the {sname} node is a union of locations none of which is '
@@ -520,4 +558,69 @@ def run_cursor_loc_fresh(prog, tier, repo):
     res.analysed['cursor_functions'] = sorted(prog.bodies[i].name for i in writers)
     res.analysed['consuming_cursor_functions'] = sorted(prog.bodies[i].name for i in consuming)
     res.analysed['reads_outside_cursor'] = n
+    return [res]
+
+
+# ---------------------------------------------------------------------------------------------------------------------
+# POSITION-FROM-TOKENS (C14): line/column pairs are computed in one place, the character-level lexer, which advances a
+# cursor over the text. Everything above it (the token producer that merges and filters tokens, the parser) must build
+# locations out of positions it was given - copying a start or an end, or `union` - never by arithmetic on a line or a
+# column: `start.column + text.len()` is only the end of the token when the token sits on one line with no blanks inside,
+# which the merged `- 2147483648` literal does not guarantee.
+
+def run_position_from_tokens(prog, tier, repo):
+    res = RuleResult('POSITION-FROM-TOKENS', 'C14: above the character-level lexer no position is computed arithmetically - token '
+                     'producer and parser only copy and unite the positions the lexer assigned')
+    pos_adt = [a for a in prog.adts.values() if a.name == 'samlang_ast::loc::Position' or a.name.endswith('::Position') and a.crate == 'samlang_ast']
+    if len(pos_adt) != 1:
+        res.cannot_decide(f'samlang_ast Position (found {len(pos_adt)})')
+        return [res]
+    pid = pos_adt[0].id
+
+    def arithmetic(b, op, depth=0):
+        if op[0] == 'k':
+            return False
+        if op[0] not in ('c', 'm') or depth > 8:
+            return False
+        r, path = root_local(b, op[1].local)
+        sd = single_def(b, r)
+        if not sd:
+            return False
+        if sd[1] == 'term':
+            nm = (callee(sd[2])[1] or '').split('::')[-1]
+            return nm in ('add', 'sub', 'checked_add', 'checked_sub', 'wrapping_add', 'wrapping_sub', 'saturating_add',
+                          'saturating_sub', 'mul', 'len') and not any(e[0] == 'f' for e in path)
+        rv = sd[2]
+        if rv[0] == 'bin':
+            return True
+        if rv[0] == 'use':
+            return arithmetic(b, rv[1], depth + 1)
+        if rv[0] == 'cast':
+            return arithmetic(b, rv[2], depth + 1)
+        return False
+    n = n_lex = 0
+    for b in sorted(prog.bodies.values(), key=lambda x: x.name):
+        if b.crate != 'samlang_parser' or '::tests' in b.name:
+            continue
+        in_char_lexer = (b.self_ty is not None and 'WrappedLogosLexer' in strip_refs(b.self_ty).s) or 'WrappedLogosLexer' in b.name
+        for bi, bl in enumerate(b.blocks):
+            if bl.cleanup:
+                continue
+            for st in bl.stmts:
+                if st[0] == 'a' and st[2][0] == 'agg' and st[2][1][0] == 'adt' and st[2][1][1] == pid:
+                    if in_char_lexer:
+                        n_lex += 1
+                        continue
+                    n += 1
+                    k = sum(1 for i in res.instances if i.key.startswith(f'position:{b.name}#')) + 1
+                    key = f'position:{b.name}#{k}'
+                    if any(arithmetic(b, o) for o in st[2][2]):
+                        res.violation(key, b.loc(st[3]), f'{b.name} builds a position by arithmetic on a line or column: above the '
+                                      f'character-level lexer the text between two tokens is unknown (blanks, line breaks, comments), '
+                                      f'so the computed position can lie before the end of the construct or outside the document')
+                    else:
+                        res.ok(key, b.loc(st[3]), 'position assembled from given coordinates')
+    if n == 0:
+        res.ok('position:none-above-the-lexer', pos_adt[0].file + f':{pos_adt[0].line}', 'token producer and parser build no position of their own')
+    res.floor('positions built by the character-level lexer (positive control)', n_lex, 1)
     return [res]
